@@ -177,7 +177,7 @@ def nontrivial(case, model):
 
 
 def streams(tier, rng):
-    n = 500 if tier == "quick" else 12000
+    n = 1000 if tier == "quick" else 20000
     g = Gen(rng)
     cases = corpus_cases()
     seen = set(cases)
@@ -200,3 +200,107 @@ def streams(tier, rng):
         Stream("tree-stdout-odd-names", "tree", odd, compare=cmp_tree, nontrivial=nontrivial, model_input=model_input,
                sb=False, hist=dict(go.feat), impl_timeout=900),
     ]
+
+
+MANIFEST = {
+    "text": "Coq theorems over a model of TreePainter (start/finish parent and leaf, ignore_leaf, the row writer with widths and the growing name span, output as code-point strings with the real glyphs) and of the driver (run_tree / run_bench_entry / run_bench with argument cases and thread-count branches, max_name_span, common_column_width): for ANY operation sequence the prefix is one 3-column unit per open non-top-level parent, a bar iff it was opened with is_last=false; the driver never panics and closes what it opens; for ALL trees every output line is the line demanded by the layout of the expected picture (units = ancestors with later siblings, branch/corner glyph = not-last/last, rows under their node with its bars and no glyph, blank line after each top-level group), the node lines are the picture's nodes once each in depth-first order, the text parses back (validating parser) to exactly the tree's skeleton under a stated decidable names/cells condition, ignored entries paint (ignored) and are not called, and the calls made are exactly one per non-ignored argument case and thread count. The model is tied to the code by byte-for-byte comparison of whole-process stdout (synthetic registry, virtual clock, all three actions, AllocProfiler on/off) and the same boolean specification is evaluated on the real stdout with cells computed by the harness from its own record of each run.",
+    "note": "Trusted: Coq kernel, extraction, ocaml/paint.ml (UTF-8, case parsing), harness/hx-paint (registry built like the macro expansion; expected cells via __verif::stats_from_samples + the crate's formatters), hooks H1-H3. Input to the model is the filtered, sorted tree with resolved options (C13/C15/C16); cell values are opaque to the painter (C05/C18). Glyphs/headings are hand-copied constants checked by the stdout comparison. Prop-level spec definitions (line_ok, track, wf_node) live in Proofs/Paint*.v.",
+    "technique": "machine-checked proof in Coq (structural induction over trees and operation sequences, recursive-descent parser with validation) + differential correspondence on whole-process stdout against the real crate",
+}
+
+
+# ---- shrinking: drop top-level groups / children, simplify benchmarks, while the specification still fails ----
+
+def _parse(case):
+    t = case.split(" ")
+    pos = [0]
+
+    def nxt():
+        pos[0] += 1
+        return t[pos[0] - 1]
+
+    def node():
+        k = nxt()
+        if k == "G":
+            name, sc, n = nxt(), nxt(), int(nxt())
+            return ["G", name, sc, [node() for _ in range(n)]]
+        bid, name, sc, ign, a = nxt(), nxt(), nxt(), nxt(), nxt()
+        args = None if a == "P" else [nxt() for _ in range(int(a[1:]))]
+        return ["B", bid, name, sc, ign, args, nxt(), nxt()]
+
+    action, prof = nxt(), nxt()
+    assert nxt() == "N"
+    return action, prof, [node() for _ in range(int(nxt()))]
+
+
+def _ser(action, prof, tops):
+    def s(n):
+        if n[0] == "G":
+            return "G %s %s %d %s" % (n[1], n[2], len(n[3]), " ".join(s(c) for c in n[3]))
+        a = "P" if n[5] is None else "A%d %s" % (len(n[5]), " ".join(n[5]))
+        return "B %s %s %s %s %s %s %s" % (n[1], n[2], n[3], n[4], a, n[6], n[7])
+    return "%s %s N %d %s" % (action, prof, len(tops), " ".join(s(x) for x in tops))
+
+
+def _variants(tops):
+    import copy
+
+    def walk(path_nodes, lst):
+        for i, n in enumerate(lst):
+            if len(lst) > 1:
+                yield ("del", path_nodes + [i])
+            if n[0] == "G":
+                yield from walk(path_nodes + [i], n[3])
+            else:
+                if n[5] is not None and len(n[5]) > 1:
+                    yield ("arg", path_nodes + [i])
+                if n[5] is not None:
+                    yield ("plain", path_nodes + [i])
+                if n[6] != "-":
+                    yield ("thr", path_nodes + [i])
+                b = n[7].split(":")
+                if b[4] != "-" or b[5] != "0":
+                    yield ("beh", path_nodes + [i])
+
+    for kind, path in list(walk([], tops)):
+        new = copy.deepcopy(tops)
+        lst = new
+        for i in path[:-1]:
+            lst = lst[i][3]
+        i = path[-1]
+        if kind == "del":
+            del lst[i]
+        elif kind == "arg":
+            lst[i][5] = lst[i][5][:1]
+        elif kind == "plain":
+            lst[i][5] = None
+        elif kind == "thr":
+            lst[i][6] = "-"
+        elif kind == "beh":
+            b = lst[i][7].split(":")
+            b[4], b[5] = "-", "0"
+            lst[i][7] = ":".join(b)
+        yield new
+
+
+def shrink(item, rerun):
+    if not item.get("case") or item.get("mode") != "tree":
+        return item
+    action, prof, tops = _parse(item["case"])
+    budget = 150
+    best = dict(item)
+    progress = True
+    while progress and budget > 0:
+        progress = False
+        for cand in _variants(tops):
+            if budget <= 0:
+                break
+            budget -= 1
+            case = _ser(action, prof, cand)
+            impl, model, sb = rerun("tree", case, crate=item.get("crate", CRATE), release=False, model_input=model_input, drv=DRV)
+            if sb.startswith("false"):
+                tops = cand
+                best.update({"case": case, "impl": impl, "model": model, "spec_verdict": sb})
+                progress = True
+                break
+    return best
